@@ -1,4 +1,6 @@
 import SJ.Proofs.Tables
+import SJ.Proofs.Located
+import SJ.Proofs.Rebuild
 /-
 C17 — Every produced tape obeys the documented tape format.
 -/
@@ -13,5 +15,14 @@ theorem C17_ret_addresses :
     cretAddressShift = 2 ∧ cretAddressStartConst < 4 ∧ cretAddressObjectConst < 4 ∧ cretAddressArrayConst < 4 ∧
     [cretAddressStartConst, cretAddressObjectConst, cretAddressArrayConst].Nodup := ret_addresses
 theorem C17_root_plus_one : caddOneForRoot = 1 := by decide
+
+open SJ.Layout in
+/-- A located document that the tape holds witnesses the documented format for the document it erases to:
+    containers point one past their end tag and the end tag back, numbers own the next word, strings resolve,
+    gaps consist of NOP entries whose skips stay inside. -/
+theorem C17_located_format (pj : PJ) (v : LVal) (h : Ok pj v) : ValAt pj (erase v) v.pos v.fin := ok_valAt pj v h
+/-- Deserialize rebuilds a tape of exactly the declared size (or fails). -/
+theorem C17_rebuild_size (init : Array UInt64) (tags values : Bytes) :
+    ∀ tp, rebuild init tags values = .ok tp → tp.size = init.size := (SJ.Rebuild.rebuild_no_panic init tags values).2.2
 
 end SJ.Properties.C17
